@@ -171,7 +171,12 @@ fn gen_queries(r: &mut Rng, case: &PriceCase, evs: &[Ev], thorough_pairs: bool) 
     for t in &known {
         let n_variants = 4;
         for v in 0..n_variants {
-            let now = if v % 2 == 0 { Some(*r.pick(&dates)) } else { None };
+            // later report dates (more prices known) somewhat more often
+            let now = if v % 2 == 0 {
+                Some(if r.chance(1, 2) { dates[dates.len() - 1 - r.below(((dates.len() + 1) / 2) as u64) as usize] } else { *r.pick(&dates) })
+            } else {
+                None
+            };
             let (start, end) = match r.below(5) {
                 0 | 1 => (None, None),
                 2 => (Some(*r.pick(&dates)), None),
